@@ -7,6 +7,14 @@ def run(ctx):
     for inv in d["static"]:
         if inv in ("RoundTrip", "Unambiguous"):
             ctx.violation("plan:" + inv, "TLC: the extracted field plan violates %s of Plan.tla (an element sequence that cannot be decoded back unambiguously)" % inv, {"tlc": d["tlc_out"][-1500:]})
+    if "TagsPinned" in d["static"]:
+        import json, os, vlib
+        pinned = {(a, b): t for a, b, t in json.load(open(os.path.join(vlib.SPEC, "ref", "fieldtags.ref.json")))["tags"]}
+        now = {(s["name"], f["name"]): f["tag"] for s in d["plan"]["structs"] for f in s["fields"]}
+        for k in sorted(set(pinned) | set(now)):
+            if pinned.get(k) != now.get(k):
+                ctx.violation("plan:member-tag:%s.%s" % k, "member %s.%s is written under tag %s, the pinned KMIP tag is %s" % (
+                    k[0], k[1], "0x%06X" % now[k] if k in now else None, "0x%06X" % pinned[k] if k in pinned else None), {"member": list(k)})
     pc.report(ctx, d, {"ttlv"}, {"encode-panic", "not-well-formed", "elements-differ", "decode-error", "reencoding-differs", "value-changed-by-roundtrip"})
     for x in d["messages"]:
         for p in x["problems"]:
